@@ -15,9 +15,11 @@ _UUID_CHAR = "[0-9a-fA-F-]"
 UUID_PATTERN = "^%s{36}$" % _UUID_CHAR
 
 _RC_TRAIT_CHAR = "[A-Z0-9_]"
-_RC_TRAIT_PATTERN = "^%s+$" % _RC_TRAIT_CHAR
+# NOTE: "$" also matches before a trailing newline in Python, which would
+# let a name such as "CUSTOM_FOO\n" through; "\Z" only matches at the end.
+_RC_TRAIT_PATTERN = "^%s+\\Z" % _RC_TRAIT_CHAR
 RC_PATTERN = _RC_TRAIT_PATTERN
-_CUSTOM_RC_TRAIT_PATTERN = "^CUSTOM_%s+$" % _RC_TRAIT_CHAR
+_CUSTOM_RC_TRAIT_PATTERN = "^CUSTOM_%s+\\Z" % _RC_TRAIT_CHAR
 CUSTOM_RC_PATTERN = _CUSTOM_RC_TRAIT_PATTERN
 CUSTOM_TRAIT_PATTERN = _CUSTOM_RC_TRAIT_PATTERN
 CONSUMER_TYPE_PATTERN = _RC_TRAIT_PATTERN
